@@ -404,6 +404,68 @@ def s17_3(ctx, P):
     ctx.floor(P + ':S17-3:partial-sites:floor', 'PacketLength::Partial constructions in the writers', n, 4)
 
 
+EMITTERS = [('packet::literal_data::', 'LiteralDataPartialGenerator', 'literal'), ('packet::compressed_data::', 'CompressedDataPartialGenerator', 'compressed')]
+
+
+def partial_emitters(ctx, P):
+    """The three partial-body emitters (literal, compressed, encrypted) follow one protocol: the first chunk carries the in-packet
+    header, so its data part is chunk size minus the header size and a single-packet body is data plus the same header size;
+    Partial(chunk size) is announced only when the fill returned a full chunk; the stream ends only after a Fixed chunk."""
+    bodies = []
+    for p, r in sorted(ctx.f.bodies.items()):
+        if '::tests::' in p:
+            continue
+        for mod, ty, nm in EMITTERS:
+            if p.startswith('<' + mod + ty) and p.endswith('as std::io::Read>::read'):
+                bodies.append((nm, ctx.wrap(r)))
+    eb = ctx.body('composed::message::builder::encrypt_write')
+    if eb is not None:
+        bodies.append(('encrypted', eb))
+    ctx.floor(P + ':S17-5:floor', 'partial-body emitters', len(bodies), 3)
+    CH = r'field:.*\.chunk_size$|param:2$'
+    for nm, b in bodies:
+        def hdr_kind(o):
+            og = b.operand_origins(o)
+            if 'k' in o and o['k'].get('v') == 1:
+                return 'const1'
+            if has_origin(og, r'call:.*write_len$'):
+                return 'write_len'
+            return None
+        subs, adds = [], []
+        for i, k, s_ in b.stmts(lambda s: s['r']['k'] == 'bin' and s['r']['op'].replace('WithOverflow', '') in ('Sub', 'Add')):
+            o = s_['r']['o']
+            op = s_['r']['op'].replace('WithOverflow', '')
+            if op == 'Sub' and has_origin(b.operand_origins(o[0]), CH) and hdr_kind(o[1]):
+                subs.append(hdr_kind(o[1]))
+            if op == 'Add' and has_origin(b.operand_origins(o[0]), r'call:util::fill_buffer$') and hdr_kind(o[1]):
+                adds.append(hdr_kind(o[1]))
+        ctx.check('%s:S17-5:%s:first-chunk-minus-header' % (P, nm), 'R-sib', '%s emitter: first data chunk = chunk size - in-packet header size, single-packet length = data + the same header size' % nm,
+                  len(subs) >= 1 and len(adds) >= 1 and set(subs) == set(adds) and len(set(subs)) == 1, function=b.path, table=dict(sub=subs, add=adds))
+        parts = [i for i, k, s_ in b.constructs(r'types::packet::PacketLength$', 'Partial')]
+        bad = [i for i in parts if not guard_switches(b, [i], [r'call:util::fill_buffer$', r'op:(Eq|Lt|Ne|Ge)$'])]
+        ctx.check('%s:S17-5:%s:partial-only-after-full-chunk' % (P, nm), 'R-dom', '%s emitter: Partial(chunk size) is announced only on the branch where the fill returned a full chunk' % nm,
+                  bool(parts) and not bad, function=b.path, site=site(b, bad[0]) if bad else None)
+        fixed = [i for i, k, s_ in b.constructs(r'types::packet::PacketLength$', 'Fixed')]
+        if nm == 'encrypted':
+            # the loop is left only on a Fixed length
+            exits = [g for g, t in b.switches() if has_origin(b.switch_origins(g), r'agg:types::packet::PacketLength::(Fixed|Partial)$') and has_origin(b.switch_origins(g), r'discr$')]
+            ctx.check('%s:S17-5:%s:ends-after-fixed' % (P, nm), 'R-dom', 'encrypt_write leaves its chunk loop only after a Fixed chunk was written', bool(exits) and len(fixed) >= 2, function=b.path)
+        else:
+            zero = [i for i, k, s_ in b.stmts(lambda s: s['r']['k'] == 'agg' and s['r'].get('v') == 'Ok' and s['d']['l'] == 0 and not s['d']['pr']
+                                             and 'k' in s['r']['o'][0] and s['r']['o'][0]['k'].get('v') == 0)]
+            # every path to an Ok(0) uses the TRUE edge of a test of is_fixed_emitted (bool switch: the `else` target is the true edge)
+            true_edges = set()
+            for g, t in b.switches():
+                og = b.switch_origins(g)
+                if has_origin(og, r'field:.*\.is_fixed_emitted$') and not has_origin(og, r'call:'):
+                    true_edges.add((g, t['else']))
+            badz = [i for i in zero if b.find_path(0, {i}, removed_edges=frozenset(true_edges)) is not None] if true_edges else zero
+            sets = [i for i, k, s_ in b.stmts(lambda s: s['d']['pr'] and s['d']['pr'][-1].endswith('.is_fixed_emitted') and s['r']['k'] == 'use' and 'k' in s['r']['o'][0] and s['r']['o'][0]['k'].get('v') in (1, True))]
+            okf = all(must_pass(b, [f_], sets)[0] for f_ in fixed) if sets and fixed else False
+            ctx.check('%s:S17-5:%s:ends-after-fixed' % (P, nm), 'R-dom', '%s emitter: end of stream (Ok(0)) is reported only once a Fixed chunk was emitted, and every Fixed length is built after is_fixed_emitted was set' % nm,
+                      bool(zero) and not badz and okf, function=b.path)
+
+
 def s17_4(ctx, P):
     b = ctx.body('packet::packet_sum::Packet::from_reader')
     if b:
@@ -415,6 +477,7 @@ def s17_4(ctx, P):
 
 def run(ctx):
     P = 'C17'
+    partial_emitters(ctx, P)
     s17_1(ctx, P)
     s17_2(ctx, P)
     s17_3(ctx, P)
